@@ -123,7 +123,7 @@ class Index:
             since = since.to_bytes(4, "big")
         if until is not None:
             until = until.to_bytes(4, "big")
-            add_time = b"\x00%s\x00" % until
+            add_time = b"\x00%s\x01" % until
         else:
             add_time = b""
 
